@@ -103,6 +103,27 @@ def writes_agree(eng, ty, seen=None):
                 for f in v['fields']: todo.append(f['ty'])
     return out, sorted(seen)
 
+def role_type(eng, role):
+    """the Rust type decoded under the namespace of `role` (None when not identifiable): the name a type happens to have is not used"""
+    st = stored_types(eng)
+    ns = 'bid' if role.startswith('bid') else role
+    tys = st.get(ns, {})
+    ex = set().union(*[v for k, v in tys.items() if k in ('execute', 'query', 'instantiate')]) if tys else set()
+    mg = set().union(*[v for k, v in tys.items() if k == 'migrate']) if tys else set()
+    cand = (mg - ex) if role == 'bid(old format)' else (ex or mg)
+    return next(iter(cand)) if len(cand) == 1 else None
+
+def persisted_types(eng):
+    """all crate-local types that make up the stored records (current formats)"""
+    out = []
+    for role in ('ask', 'bid', 'contract_info', 'version_info'):
+        ty = role_type(eng, role)
+        if ty is None: continue
+        _, types = writes_agree(eng, ty)
+        for t in types:
+            if t not in out: out.append(t)
+    return out
+
 def check_wire(eng, PROP, roles):
     st = stored_types(eng)
     cur = {}
